@@ -1395,6 +1395,14 @@ mod expression_parser {
                 })
                 .collect_vec();
               let loc = peeked_loc.union(&right_parenthesis_loc);
+              if tuple_elements.len() == 1 {
+                // `(a,)`: there is no one-element tuple.
+                parser.error_set.report_invalid_syntax_error(
+                  loc,
+                  "A tuple needs at least two elements.".to_string(),
+                );
+                return tuple_elements.into_iter().next().unwrap();
+              }
               return expr::E::Tuple(
                 expr::ExpressionCommon {
                   loc,
@@ -1684,7 +1692,13 @@ mod expression_parser {
     expressions.truncate(MAX_STRUCT_SIZE);
     let (end_loc, end_comments) = parser.assert_and_consume_operator(TokenOp::RightParenthesis);
     let loc = start_loc.union(&end_loc);
-    debug_assert!(expressions.len() > 1);
+    if expressions.len() == 1 {
+      // `(e,)`: there is no one-element tuple.
+      parser
+        .error_set
+        .report_invalid_syntax_error(loc, "A tuple needs at least two elements.".to_string());
+      return expressions.pop().unwrap();
+    }
     expr::E::Tuple(
       expr::ExpressionCommon { loc, associated_comments: NO_COMMENT_REFERENCE, type_: () },
       expr::ParenthesizedExpressionList {
@@ -2108,7 +2122,8 @@ mod type_parser {
       }
       TokenContent::UpperId(name) => {
         associated_comments.append(&mut parser.consume());
-        let associated_comments = parser.comments_store.create_comment_reference(associated_comments);
+        let associated_comments =
+          parser.comments_store.create_comment_reference(associated_comments);
         let id_annot =
           parse_identifier_annot(parser, Id { loc: peeked.0, associated_comments, name });
         if id_annot.type_arguments.is_none() && parser.available_tparams.contains(&id_annot.id.name)
